@@ -66,13 +66,15 @@ struct Case {
   int start;
   int L;
   int tsf_d2 = 1;
+  int disable_at = -1;   // k >= 1: before the k-th step of the run the first member is switched off from the script interface (cv bias <name> set active 0)
   std::string json() const
   {
     std::string s = "{\"biases\":[";
     for (size_t i = 0; i < members.size(); i++)
       s += std::string(i ? "," : "") + "{\"bias\":\"" + BNAME[members[i]] + "\",\"timeStepFactor\":" + std::to_string(tsf[i]) + "}";
     s += "],\"first_step\":" + std::to_string(start) + ",\"steps\":" + std::to_string(L) +
-         ",\"timeStepFactor_d2\":" + std::to_string(tsf_d2) + "}";
+         ",\"timeStepFactor_d2\":" + std::to_string(tsf_d2) +
+         (disable_at >= 0 ? ",\"first_bias_switched_off_from_the_script_before_step\":" + std::to_string(start + disable_at) : std::string()) + "}";
     return s;
   }
 };
@@ -94,6 +96,15 @@ static Trace run_case(Case const &c, Result &r)
   px->colvars->set_initial_step(c.start);
   for (int k = 0; k < c.L; k++) {
     long s = c.start + k;
+    if (c.disable_at >= 0 && k == c.disable_at) {
+      std::vector<std::string> wv = {"cv", "bias", BNAME[c.members[0]], "set", "active", "0"};
+      std::vector<unsigned char *> av;
+      for (auto &x : wv) av.push_back((unsigned char *) x.c_str());
+      cvm::clear_error();
+      int src = run_colvarscript_command((int) av.size(), av.data());
+      cvm::clear_error();
+      if (src != 0) { t.ok = false; t.err = "script command refused: " + px->errtxt; break; }
+    }
     place(*px, s);
     int rc = px->step(s);
     if (rc != 0) { t.ok = false; t.err = px->errtxt; break; }
@@ -161,6 +172,16 @@ int main(int argc, char **argv)
       cases.push_back(Case{{2, 4}, {n, 1}, st, L, n});
     }
 
+  // "biases that are disabled contribute nothing": the first member of every case of one or two members is switched off from the
+  // script interface before the 2nd or the 3rd step of the run (for a factor-2 bias one of them finds it asleep, the other awake)
+  {
+    size_t n0 = cases.size();
+    for (size_t i = 0; i < n0; i++) {
+      if (cases[i].members.size() > 2 || cases[i].tsf_d2 != 1) continue;
+      for (int k = 1; k <= 2; k++) { Case c = cases[i]; c.disable_at = k; cases.push_back(c); }
+    }
+  }
+
   Result total;
   bool ok = run_sharded(args.jobs, [&](int shard, int nsh, Result &r) {
     std::map<std::string, Trace> singles;
@@ -182,11 +203,37 @@ int main(int argc, char **argv)
       if (!t.ok) {
         // every member runs without error on its own (checked by single()), so an error here is an effect of the combination
         for (size_t i = 0; i < c.members.size(); i++) single(c.members[i], c.tsf[i], c.start, c.tsf_d2);
-        r.violation("C08:superposition:error-in-combined-run-but-not-in-single-bias-runs",
+        r.violation(c.disable_at >= 0 ? std::string("C08:disabled-bias-still-contributes") + (c.tsf[0] > 1 ? ":bias-with-a-time-step-factor" : "") + ":error-at-a-later-step"
+                                      : std::string("C08:superposition:error-in-combined-run-but-not-in-single-bias-runs"),
                     c.json().substr(0, c.json().size() - 1) + ",\"error\":\"" + jesc(t.err.substr(0, 300)) + "\"}");
         continue;
       }
       if (ci < 2 * (size_t) nsh && shard == 0) r.sample(c.json());
+      if (c.disable_at >= 0) {
+        // ---- oracle 4: from the step before which it was switched off, the first member contributes nothing ----
+        for (int k = 0; k < c.L; k++) {
+          std::vector<double> fs(12, 0.0);
+          double es = 0, scale = 1e-300;
+          for (size_t i = 0; i < c.members.size(); i++) {
+            Trace &s1 = single(c.members[i], c.tsf[i], c.start, c.tsf_d2);
+            for (int j = 0; j < 12; j++) scale = std::max(scale, std::fabs(s1.f[k][j]));
+            scale = std::max(scale, std::fabs(s1.e[k]));
+            if (i == 0 && k >= c.disable_at) continue;
+            for (int j = 0; j < 12; j++) fs[j] += s1.f[k][j];
+            es += s1.e[k];
+          }
+          bool bad = false;
+          for (int j = 0; j < 12; j++) if (!close_rel(t.f[k][j], fs[j], scale, 1e-12, 1e-14)) bad = true;
+          if (!close_rel(t.e[k], es, scale, 1e-12, 1e-14)) bad = true;
+          if (bad) {
+            r.violation(std::string("C08:disabled-bias-still-contributes") + (c.tsf[0] > 1 ? ":bias-with-a-time-step-factor" : "") + (k < c.disable_at ? ":before-it-was-switched-off" : ""),
+                        c.json().substr(0, c.json().size() - 1) + ",\"step\":" + std::to_string(c.start + k) + ",\"energy\":" + num(t.e[k]) + ",\"expected\":" + num(es) + "}");
+            break;
+          }
+        }
+        r.seen("nontrivial", fnv(c.json()));
+        continue;
+      }
       // ---- oracle 1: superposition ----
       for (int k = 0; k < c.L; k++) {
         std::vector<double> fs(12, 0.0);
